@@ -4,7 +4,7 @@
    key written.  These are the side conditions under which the printed tree is inside Model/Build.v's `Built`. *)
 From TV Require Import Base.Prelude Base.Utf8 Model.Datetime Model.DatetimeStd Model.WriteFloat Model.Numbers Model.SerNum
   Spec.DatetimeSpec Spec.SerdeData Model.Ser Model.De Model.SerDoc
-  Proofs.LexEquivUtf8 Proofs.NumbersRT_Widen Proofs.NumbersRT_Ser
+  Proofs.LexEquivUtf8 Proofs.NumbersRT_Int Proofs.NumbersRT_Widen Proofs.NumbersRT_Ser Proofs.DatetimeStdTotal
   Proofs.SerdeRTBase Proofs.SerdeRTEq Proofs.SerdeRTLeaf Proofs.SerdeRTLists Proofs.SerdeRT Proofs.SerDocDe.
 Require Import Lia ZifyBool ZifyN ZifyNat.
 
@@ -206,29 +206,99 @@ Proof.
     apply (ok_struct_fields fs H vs ps Hnd Hvs Ht Hu Hps).
 Qed.
 
+(* ---- the text of a date-time is ASCII (toml::to_string writes a root Datetime as { "$__toml_private_datetime" = "<text>" }) ---- *)
+Definition AA (s : bytes) : Prop := forall b, In b s -> ascii_b b = true.
+Lemma AA_app a b : AA a -> AA b -> AA (a ++ b).
+Proof. intros Ha Hb x Hx. apply in_app_or in Hx as [H|H]; auto. Qed.
+Lemma AA_cons x s : ascii_b x = true -> AA s -> AA (x :: s).
+Proof. intros Hx Hs y [<-|Hy]; auto. Qed.
+Lemma AA_nil : AA []. Proof. intros b []. Qed.
+Lemma AA_rev s : AA s -> AA (rev s).
+Proof. intros H b Hb. apply H. apply in_rev. exact Hb. Qed.
+Lemma AA_valid s : AA s -> utf8_valid_b s = true.
+Proof.
+  induction s as [|b s IH]; intro H; [reflexivity|]. rewrite utf8_cons_ascii by (apply H; left; reflexivity).
+  apply IH. intros c Hc. apply H. right. exact Hc.
+Qed.
+Lemma digit_byte_asc d : (d < 10)%N -> ascii_b (digit_byte d) = true.
+Proof. intro H. apply digit_ascii, NumbersRT_Int.digit_byte_is_digit, H. Qed.
+Lemma digits_rev_AA fuel : forall n, AA (digits_rev fuel n).
+Proof.
+  induction fuel as [|f IH]; intro n; cbn [digits_rev]; [apply AA_nil|].
+  destruct (n <? 10)%N eqn:E.
+  - apply AA_cons; [apply digit_byte_asc; lia|apply AA_nil].
+  - apply AA_cons; [apply digit_byte_asc; apply N.mod_lt; discriminate|apply IH].
+Qed.
+Lemma pad0_AA w n : AA (pad0 w n).
+Proof.
+  unfold pad0, dec_digits. apply AA_app; [|apply AA_rev, digits_rev_AA].
+  intros b Hb. apply repeat_spec in Hb. subst. reflexivity.
+Qed.
+Lemma trim_rev_AA s : AA s -> AA (trim_end_zeros_rev s).
+Proof.
+  induction s as [|b s IH]; intro H; cbn [trim_end_zeros_rev]; [exact H|].
+  destruct (byte_eqb b x30); [apply IH; intros c Hc; apply H; right; exact Hc|exact H].
+Qed.
+Lemma display_datetime_AA d : AA (display_datetime d).
+Proof.
+  unfold display_datetime. repeat apply AA_app.
+  - destruct (d_date d) as [x|]; [|apply AA_nil]. unfold display_date.
+    repeat (first [apply pad0_AA | apply AA_app | apply AA_cons; [reflexivity|] | apply AA_nil]).
+  - destruct (d_time d) as [t|]; [|apply AA_nil]. apply AA_app.
+    + destruct (d_date d); [apply AA_cons; [reflexivity|apply AA_nil]|apply AA_nil].
+    + unfold display_time.
+      repeat (first [apply pad0_AA | apply AA_app | apply AA_cons; [reflexivity|] | apply AA_nil]).
+      destruct (nanosecond t =? 0)%N; [apply AA_nil|]. apply AA_cons; [reflexivity|].
+      unfold trim_end_zeros. apply AA_rev, trim_rev_AA, AA_rev, pad0_AA.
+  - destruct (d_offset d) as [[|m]|]; [apply AA_cons; [reflexivity|apply AA_nil]| |apply AA_nil].
+    unfold display_offset. apply AA_cons; [destruct (m <? 0)%Z; reflexivity|].
+    repeat (first [apply pad0_AA | apply AA_app | apply AA_cons; [reflexivity|] | apply AA_nil]).
+Qed.
+
 (* ---- the roots of the text routes ---- *)
+Lemma edit_root_out_ok t v x :
+  has_type_b t v = true -> utf8_ty t = true -> utf8_sv v = true -> ser_edit_root t v = Ok x ->
+  out_ok x = true /\ exists es, x = VTab es.
+Proof.
+  intros Hty Ht Hu H0. apply edit_root_is_table in H0 as (es & -> & H0).
+  split; [apply (ser_out_ok t v _ Hty Ht Hu H0)|eauto].
+Qed.
+
+Lemma toml_root_out_ok t v x :
+  has_type_b t v = true -> utf8_ty t = true -> utf8_sv v = true -> ser_toml_root t v = Ok x ->
+  out_ok x = true /\ exists es, x = VTab es.
+Proof.
+  intros Hty Ht Hu H.
+  assert (Edit : ser_edit_root t v = Ok x -> out_ok x = true /\ exists es, x = VTab es)
+    by (apply edit_root_out_ok; assumption).
+  destruct t; try (apply Edit; destruct v; exact H).
+  - (* Datetime at the root *)
+    destruct v; try (apply Edit; exact H).
+    simpl in H. injection H as <-. split; [|eauto].
+    cbn [out_ok map fst snd nodup_bytes mem_bytes forallb negb andb]. rewrite (AA_valid _ (display_datetime_AA d)).
+    vm_compute. reflexivity.
+  - (* struct at the root *)
+    destruct v; try (apply Edit; exact H).
+    rewrite ht_struct in Hty. apply andb_true_iff in Hty as [Hty Hvs]. apply andb_true_iff in Hty as [Hpriv Hnd].
+    simpl in H. apply rmap_ok in H as (ps & Hps & ->). split; [|unfold table_of; eauto].
+    rewrite utf8_ty_struct in Ht.
+    assert (IH : Forall (fun ft : bytes * ty => OK (snd ft)) fs) by (apply Forall_forall; intros ft _; apply ser_out_ok).
+    apply (ok_struct_fields fs IH vs ps Hnd Hvs Ht Hu Hps).
+  - (* enum at the root *)
+    destruct v as [| | | | | | | | | | | | | |i p]; try (apply Edit; exact H).
+    simpl in H.
+    match type of H with pick ?f ?d vs i = _ => destruct (pick_cases f d vs i) as [([vn var] & Hn & E)|[_ E]]; rewrite E in H end;
+      [|discriminate].
+    simpl in H. destruct var; try discriminate H.
+    + apply Edit. exact H.
+    + apply Edit. exact H.
+    + destruct p; try discriminate H. destruct (zipM ser_value ts vs0); discriminate H.
+Qed.
+
 Theorem ser_text_out_ok r t v x :
   has_type v t -> utf8_ty t = true -> utf8_sv v = true -> ser_text r t v = Ok x ->
   out_ok x = true /\ exists es, x = VTab es.
 Proof.
-  intros Hty Ht Hu H. unfold has_type in Hty.
-  assert (Edit : forall x0, ser_edit_root t v = Ok x0 -> out_ok x0 = true /\ exists es, x0 = VTab es).
-  { intros x0 H0. apply edit_root_is_table in H0 as (es & -> & H0). split; [|eauto]. apply (ser_out_ok t v _ Hty Ht Hu H0). }
-  destruct r; simpl in H; try (apply Edit; exact H).
-  all: unfold ser_toml_root in H.
-  all: destruct t; try (apply Edit; destruct v; exact H).
-  all: try (destruct v; try (apply Edit; exact H)).
-  (* Datetime at the root: { FIELD = "text" } *)
-  1,4: injection H as <-; split; [|eauto]; simpl in Hty; apply andb_true_iff in Hty as [Hr _];
-       cbn [out_ok map fst snd nodup_bytes mem_bytes forallb negb andb]; rewrite !andb_true_r; apply andb_true_iff; split;
-       [vm_compute; reflexivity|].
-  (* struct at the root *)
-  3,5: rewrite ht_struct in Hty; apply andb_true_iff in Hty as [Hty Hvs]; apply andb_true_iff in Hty as [Hpriv Hnd];
-       apply rmap_ok in H as (ps & Hps & ->); split; [|unfold table_of; eauto];
-       rewrite utf8_ty_struct in Ht;
-       apply (ok_struct_fields fs (proj1 (Forall_forall _ _) (fun ft _ => ser_out_ok (snd ft))) vs ps Hnd Hvs Ht Hu Hps).
-  (* enum at the root *)
-  3,4: match type of H with pick ?f ?d vs idx = _ => destruct (pick_cases f d vs idx) as [([vn var] & Hn & E)|[_ E]]; rewrite E in H end;
-       [|discriminate]; simpl in H; destruct var; try discriminate H; try (apply Edit; exact H);
-       destruct payload; try discriminate H; destruct (zipM ser_value ts vs0); discriminate H.
-Abort.
+  intros Hty Ht Hu H. destruct r; simpl in H;
+    first [apply (edit_root_out_ok t v x Hty Ht Hu H) | apply (toml_root_out_ok t v x Hty Ht Hu H)].
+Qed.
